@@ -105,6 +105,7 @@ class Discharger(object):
         self.cut_rep = {}
         self.stats = {'queries': 0, 'solver_s': 0.0, 'pair_queries': 0, 'syntactic': 0, 'unknown': 0}
         self.smt2 = []
+        self.cut_merges = []
         self.pair_solver = z3.Solver()
         self.pair_solver.set('timeout', 10000)
         self.cuts_memo = {}
@@ -172,13 +173,17 @@ class Discharger(object):
         key = (g1.get_id(), g2.get_id())
         r = self.equiv_cache.get(key)
         if r is None:
+            r = self.equiv_cache.get(key + (tuple(t.get_id() for t in pc),))
+        if r is None:
             self.stats['pair_queries'] += 1
             t = time.time()
             s = z3.Solver()
             s.set('timeout', 10000)
             s.add(z3.Xor(g1, g2))
             res = s.check()
+            used_pc = False
             if res != z3.unsat and pc:
+                used_pc = True
                 # retry under the part of the path condition that talks about the same variables
                 vs = self.varset(g1) | self.varset(g2)
                 s = z3.Solver()
@@ -190,7 +195,10 @@ class Discharger(object):
                 res = s.check()
             self.stats['solver_s'] += time.time() - t
             r = (res == z3.unsat)
-            self.equiv_cache[key] = r
+            if used_pc and r:
+                self.equiv_cache[key + (tuple(t.get_id() for t in pc),)] = r    # proven only under this path condition
+            else:
+                self.equiv_cache[key] = r
         return r
 
     def match_increments(self, pc, d):
@@ -255,6 +263,18 @@ class Discharger(object):
         return str(res), m
 
     # ------------------------------------------------------------ cuts
+    def merge_cuts(self, pc, x, y):
+        """x == y was proven under pc: valid for this and every obligation whose path condition extends pc"""
+        self.cut_merges.append((tuple(t.get_id() for t in pc), x, y))
+        self.cut_uf[self.find(x)] = self.find(y)
+
+    def begin_obligation(self, pc):
+        ids = tuple(t.get_id() for t in pc)
+        self.cut_uf = {}
+        for (pids, x, y) in self.cut_merges:
+            if len(pids) <= len(ids) and ids[:len(pids)] == pids:
+                self.cut_uf[self.find(x)] = self.find(y)
+
     def find(self, cid):
         while self.cut_uf.get(cid, cid) != cid:
             cid = self.cut_uf[cid]
@@ -304,7 +324,7 @@ class Discharger(object):
                 tried += 1
                 r, _ = self.prove_int_equal(pc, ivx, cv[y][1])
                 if r == 'unsat':
-                    self.cut_uf[self.find(x)] = self.find(y)
+                    self.merge_cuts(pc, x, y)
                     only_b.remove(y)
                     break
 
@@ -328,7 +348,7 @@ class Discharger(object):
                             continue
                     v, _ = self.prove_int_equal_fast(pc, iv1, iv2)
                     if v:
-                        self.cut_uf[self.find(c)] = self.find(r)
+                        self.merge_cuts(pc, c, r)
                         merged = True
                         break
                 if not merged:
@@ -611,6 +631,7 @@ class Discharger(object):
 
     # ------------------------------------------------------------ driver
     def discharge(self, obl):
+        self.begin_obligation(obl.pc)
         t0 = time.time()
         q0 = self.stats['queries']
         kind = obl.kind
